@@ -7,6 +7,7 @@
   receiver (those return the new receiver, in front of their results).
 -/
 import DDS.Model.GoSem
+import DDS.Generated.CodeEncoding
 
 namespace DDS.GoSem
 
@@ -19,6 +20,8 @@ class MapI (M : Type) where
   RelativeAccuracy : M → F64
   MinIndexableValue : M → F64
   MaxIndexableValue : M → F64
+  /-- `Encode(b *[]byte)`: appends to the caller's buffer (the new buffer is returned) -/
+  Encode : M → List (BitVec 8) → List (BitVec 8)
 
 /-- `store.Store` (the methods the sketch calls; mutating methods return the new store) -/
 class StoreI (S : Type) where
@@ -33,5 +36,8 @@ class StoreI (S : Type) where
   KeyAtRank : S → F64 → Int
   MergeWith : S → S → S
   Reweight : S → F64 → S × GoErr
+  /-- `Encode(b *[]byte, t enc.FlagType)`: may reorganise the store (the paginated store compacts); returns the
+      store and the new buffer -/
+  Encode : S → List (BitVec 8) → DDS.Gen.Encoding.FlagType → S × List (BitVec 8)
 
 end DDS.GoSem
